@@ -1,4 +1,7 @@
 use hlverif::props;
+
+#[global_allocator]
+static ALLOC: hlverif::quarantine::QuarantineAlloc = hlverif::quarantine::QuarantineAlloc;
 use hlverif::runner::Tier;
 
 fn usage() -> ! {
